@@ -64,6 +64,13 @@ pub fn create_accounts(deps: &mut DepsMut, accounts: &[Cw20Coin]) -> StdResult<U
     let mut total_supply = Uint128::zero();
     for row in accounts {
         let address = deps.api.addr_canonicalize(&row.address)?;
+        // an address may be listed only once: a later entry would overwrite the earlier balance
+        // while both amounts are counted in the total supply (cw20-base rejects duplicates too)
+        if BALANCES.has(deps.storage, address.as_slice()) {
+            return Err(StdError::generic_err(
+                "Duplicate initial balance addresses",
+            ));
+        }
         BALANCES.save(deps.storage, address.as_slice(), &row.amount)?;
         total_supply += row.amount;
     }
